@@ -240,6 +240,7 @@ def writeArr (id : Nat) (data : List Rat) (unit : U) : M Unit := do
 inductive Rhs
   | var (v : Nat)
   | val (a : ArrV)            -- number / ndarray / Quantity, already as the Array `Array(rhs)` builds
+  | ndview (v : Nat)          -- the raw ndarray held by the Array object `v` (`x.values`): `Array(rhs)` wraps the same buffer
   deriving Repr, Inhabited
 
 /-- run actions one after the other, keeping the effects of those that succeeded;
@@ -265,6 +266,13 @@ def arrInplace (op : BinOp) (lhsId : Nat) (rhs : ArrV) : M Nat := do
 def rhsArr (r : Rhs) : M (Option ArrV × Option Nat) := do
   match r with
   | .val a => pure (some a, none)
+  | .ndview v => do
+    let id ← lookupVar v
+    match ← getObj id with
+    | .arr _ => do
+      let a ← readArr id
+      pure (some { a with unit := U.one, name := "" }, none)
+    | _ => pure (none, none)
   | .var v => do
     let id ← lookupVar v
     match ← getObj id with
